@@ -112,9 +112,16 @@ fn check_bytes(refm: &RefModel, eng: &str, high: bool, k: usize, r: usize, bytes
     let mut n = 0u64;
     let res = guard(|| {
         with_engine!(eng, E => {
-            let mut enc = make_encoder::<E>(kind, k, r, bytes, if soil == 0 { None } else { Some(soil) }).map_err(|e| format!("Err({e:?})"))?;
+            // shape "special": the first round runs at a smaller original_count, then the encoder is reset to (k, r):
+            // the second round's slots lie in a region that was used (and grown) before
+            let k_first = if shape == "special" { (k + 1) / 2 } else { k };
+            let mut enc = make_encoder::<E>(kind, k_first, r, bytes, if soil == 0 { None } else { Some(soil) }).map_err(|e| format!("Err({e:?})"))?;
             let mut out: Vec<(Vec<Vec<u8>>, Vec<Vec<u8>>)> = Vec::new();
             for round in 0..2u64 {
+                let k = if round == 0 { k_first } else { k };
+                if round == 1 && k != k_first {
+                    enc.reset(k, r, bytes).map_err(|e| format!("reset: Err({e:?})"))?;
+                }
                 let mut originals = data_dense(k, bytes, seed ^ (round * 0x9e37) ^ bytes as u64);
                 // data shapes besides dense: "same" = k identical shards, "unit<i>" = only original i non-zero
                 if shape == "same" {
@@ -152,7 +159,7 @@ fn check_bytes(refm: &RefModel, eng: &str, high: bool, k: usize, r: usize, bytes
         Err(p) => return Err(("no panic".into(), format!("PANIC: {p}"))),
     };
     for (ri, (originals, rec)) in rounds.iter().enumerate() {
-        let want = refm.encode(high, k, r, originals);
+        let want = refm.encode(high, originals.len(), r, originals);
         if rec.len() != r {
             return Err((format!("{r} recovery shards"), format!("{}", rec.len())));
         }
@@ -290,7 +297,7 @@ pub fn run(ctx: &Ctx, rep: &mut Report) {
             }
         }
     }
-    rep.bound("bytes_special_values", J::s("[1..8]^2 + (20,12) (12,20) (33,31) (70,40) (40,70) (9,130) (130,9) x {high,low} x every engine: data made of the symbol values a data-dependent short cut would single out (an all-zero shard, two equal shards, an all-0xFFFF shard, equal low/high halves, a cycle of 0x0000 0x0001 0xFFFF 0x00FF 0xFF00 0x8000 0x0100 0x0101 0xFFFE), two rounds, every recovery byte"));
+    rep.bound("bytes_special_values", J::s("[1..8]^2 + (20,12) (12,20) (33,31) (70,40) (40,70) (9,130) (130,9) x {high,low} x every engine: data made of the symbol values a data-dependent short cut would single out (an all-zero shard, two equal shards, an all-0xFFFF shard, equal low/high halves, a cycle of 0x0000 0x0001 0xFFFF 0x00FF 0xFF00 0x8000 0x0100 0x0101 0xFFFE), two rounds - the first at half the original_count, then reset to the full configuration -, every recovery byte"));
     rep.bound("bytes_shapes", J::s("[1..6]^2 x {high,low} x every engine: k identical shards and every single-non-zero-shard data set (shard sizes 64/130/192 in rotation)"));
     for (k, r) in [(1usize, 1usize), (2, 3), (3, 2), (5, 3), (3, 5), (4, 4), (17, 5), (5, 17)] {
         for rate in ["high", "low"] {
